@@ -26,11 +26,29 @@
 (*   returns.                                                                 *)
 EXTENDS Naturals, FiniteSets
 
-CONSTANTS Senders, MaxCalls, AdmitRule
+CONSTANTS
+  \* @type: Set(Str);
+  Senders,
+  \* @type: Int;
+  MaxCalls,
+  \* @type: Str;
+  AdmitRule
 
-VARIABLES closing, calls, outNotif, transportClosed, done,
-          spc,        \* sender program counter: "idle" | "wcheck" | "inwriter" | "ndone" | "stopped"
-          closeRet    \* Close has returned
+VARIABLES
+  \* @type: Bool;
+  closing,
+  \* @type: Int;
+  calls,
+  \* @type: Int;
+  outNotif,
+  \* @type: Bool;
+  transportClosed,
+  \* @type: Bool;
+  done,
+  \* @type: Str -> Str;
+  spc,        \* sender program counter: "idle" | "wcheck" | "inwriter" | "ndone" | "stopped"
+  \* @type: Bool;
+  closeRet    \* Close has returned
 vars == <<closing, calls, outNotif, transportClosed, done, spc, closeRet>>
 
 Idle == calls = 0 /\ outNotif = 0
@@ -89,6 +107,16 @@ TypeOK == /\ calls \in 0..MaxCalls /\ outNotif \in 0..Cardinality(Senders)
 \* safety: the transport is closed only when nothing is in flight
 ClosedOnlyWhenIdle == [][transportClosed' /\ ~transportClosed => (calls' = 0 /\ outNotif' = 0 /\ closing')]_vars
 CountsMatch == outNotif = Cardinality({s \in Senders : spc[s] \in {"wcheck", "inwriter", "ndone"}})
+\* ---- inductive invariant (Apalache: IndInit => IndInv at length 0; IndInv /\ Next => IndInv' at length 1) ----
+\* unbounded in the length of the behaviour: whatever the senders and the environment do, for ever
+CInit == Senders = {"a", "b", "c", "d"} /\ MaxCalls = 3 /\ AdmitRule = "calls"
+InFlight == {s \in Senders : spc[s] \in {"wcheck", "inwriter", "ndone"}}
+IndInv == /\ TypeOK /\ closing \in BOOLEAN /\ transportClosed \in BOOLEAN /\ done \in BOOLEAN /\ closeRet \in BOOLEAN
+          /\ outNotif = Cardinality(InFlight)
+          /\ (transportClosed => closing /\ calls = 0 /\ outNotif = 0)      \* closed only when idle, and it STAYS idle
+          /\ (done => transportClosed) /\ (closeRet => done)
+          /\ (closing /\ calls = 0 /\ outNotif = 0 => transportClosed)      \* the epilogue never misses the idle moment
+IndInit == IndInv
 \* liveness (C05): once Close has been called it returns, however persistent the senders
 CloseTerminates == closing ~> closeRet
 \* and every sender eventually learns that the session is gone
